@@ -358,6 +358,13 @@ def awkward_names(rng, g, p=0.25):
 TIME_NAMES = ["s", "time", "tt", "T"]
 
 
+def in_time_symbol(expr_text, ind):
+    """`expr_text`, written with `t` as the time variable, re-written with the time variable the input configures"""
+    import re
+    nm = ind.get("options", {}).get("input_time_symbol", "t")
+    return expr_text if nm == "t" else re.sub(r"(?<![A-Za-z0-9_])t(?![A-Za-z0-9_])", nm, expr_text)
+
+
 def rename_time(ind, nm):
     """the same system with the time variable renamed through the `input_time_symbol` option"""
     import re
